@@ -1009,6 +1009,13 @@ TRACK_OBS = "List (Nat × List (Option A × Option F))"
 TRACK_FIELDS = {"self.attributes": "attributes", "self.observations": "obs_db", "self.metric": "metric", "self.merge_history": "merge_history",
                 "self.notifier": "notes", "self.track_id": "()"}
 TRACK_OPT = "(optimize : M → Nat → List Nat → TA → List (Option A × Option F) → Nat → Bool → Except E Unit × M × TA × List (Option A × Option F))"
+TRACK_BUILD = [
+    dict(group="TrackBuild", name="track_build", file="track/builder.rs", impl=None, fn="build", occurrence=1, cps=True, imperative=True, resultfn=True, state=["track"],
+         sig="{T TA M A F U E N : Type} (newFn : Nat → M → TA → N → T) (addObsFn : T → Nat → Option A → Option F → Option U → Except (Track.Err E) Unit × T)\n    (id : Nat) (metric : M) (track_attrs : TA) (notifier : N) (observations : List (Nat × Option A × Option F × Option U)) : Except (Track.Err E) T",
+         ret="{0}", fieldpath={"self.id": "id", "self.metric": "metric", "self.track_attrs": "track_attrs", "self.notifier": "notifier", "self.observations": "observations"},
+         method={"unwrap": "{0}"}, call={"Track::new": "newFn {0} {1} {2} {3}", "Ok": "Except.ok {0}"},
+         effcalls={"add_observation": ("addObsFn {0} {1} {2} {3} {4}", ["@0"])}),
+]
 TRACK_DIST = [
     dict(group="TrackDist", name="track_distances", file="track.rs", impl=TRACK_IMPL, fn="distances", optmonad=True,
          sig="{TA M OA E : Type} (compatible : TA → TA → Bool) (metricFn : Nat × TA × OA × TA × OA → Option (Option Int × Option Rat))\n    (self_id : Nat) (self_attrs : TA) (self_obs : List (Nat × List OA)) (other_id : Nat) (other_attrs : TA) (other_obs : List (Nat × List OA)) (feature_class : Nat) :\n    Except (Track.Err E) (List Track.DistOk)",
@@ -1348,7 +1355,7 @@ LOGIC = [
 def gen(repo, cfgs, header, footer):
     out, unread = [header], []
     for c in cfgs:
-        if c in LOGIC or c in TRACK or c in VOTING or c in TRACK_DIST or c in STORE or c in RECORDS or c in AUTOWASTE or c in VISVOTE or c in STORE_MAP or c in STORE_ADD or c in SORTVOTE or c in IDLE:
+        if c in LOGIC or c in TRACK or c in VOTING or c in TRACK_DIST or c in STORE or c in RECORDS or c in AUTOWASTE or c in VISVOTE or c in STORE_MAP or c in STORE_ADD or c in SORTVOTE or c in IDLE or c in TRACK_BUILD:
             c = dict(c, scalar=c.get("scalar", "Rat"))
         path = os.path.join(repo, "src", c["file"])
         try:
@@ -1610,6 +1617,7 @@ def main():
     jobs.append(("LStoreMap.lean", STORE_MAP + STORE_ADD, "import SimVerif.Model.Track\n" + HEADER_L + PRELUDE_STOREMAP, "SimVerif.Gen.L"))
     jobs.append(("LSortVoting.lean", SORTVOTE, "import SimVerif.Gen.LBase\n" + HEADER_L + PRELUDE_SORTVOTE, "SimVerif.Gen.L"))
     jobs.append(("LIdle.lean", IDLE, "import SimVerif.Gen.LEpoch\nimport SimVerif.Gen.LEpochDb\n" + HEADER_L, "SimVerif.Gen.L"))
+    jobs.append(("LTrackBuild.lean", TRACK_BUILD, "import SimVerif.Model.Track\n" + HEADER_L + "open SimVerif\n", "SimVerif.Gen.L"))
     jobs.append(("LTrackDist.lean", TRACK_DIST, "import SimVerif.Gen.LTrack\nimport SimVerif.Model.Track\n" + HEADER_L + PRELUDE_TRACKDIST, "SimVerif.Gen.L"))
     jobs.append(("LConstr.lean", [c for c in LOGIC if c["group"] == "Constr"], HEADER_L + PRELUDE_DEDUP, "SimVerif.Gen.L"))
     jobs.append(("LBase.lean", [], HEADER_L + PRELUDE_BASE + PRELUDE_MAP, "SimVerif.Gen.L"))
